@@ -55,7 +55,8 @@ def run(ctx):
             if 'hir' not in fn_ or fn_.get('cfg_test') or fn_.get('mac') or not p_.startswith(('confirm::', '<confirm::')):
                 continue
             for nd in H.walk(fn_['hir']):
-                if nd.get('k') == 'MethodCall' and H.term(nd['recv']).endswith('out_of_order') and 'HashMap' in nd.get('recv_ty', ''):
+                if nd.get('k') == 'MethodCall' and H.term(nd['recv']).endswith('out_of_order') and 'HashMap' in nd.get('recv_ty', '') and \
+                        nd['name'] not in ('len', 'is_empty', 'contains_key', 'get', 'iter', 'keys', 'values', 'clone'):
                     muts.setdefault(ctx.owner(p_), []).append(nd['name'])
                 if nd.get('k') in ('Assign', 'AssignOp') and H.peel(nd['l']).get('k') == 'Field' and H.peel(nd['l'])['name'] in ('expected', 'out_of_order'):
                     muts.setdefault(ctx.owner(p_), []).append(H.peel(nd['l'])['name'] + (nd.get('op') or '=').rstrip('=') + '=')
